@@ -18,7 +18,7 @@ for p in props:
         "evidence_file": f"/verif/evidence/{pid}.json",
         "replay_cmd_template": f"./check {pid} --replay {{path}}",
         "engine": "pyvc",
-        "level_claimed": {"category": m["level"], "text": m["text"], "design_ref": f"DESIGN.md section 6, {pid}"},
+        "level_claimed": {"category": m["level"], "text": m["text"], "design_ref": f"DESIGN.md section 12 (as built) and section 6 (plan), {pid}"},
         "level_note": m["note"],
         "technique": m["technique"],
     })
@@ -28,10 +28,10 @@ man = {
     "hooks": {"guard": "TURONOVA_CRYOCAT_VERIF", "enable": "no hooks: contracts are sidecar files under /verif/contracts, /repo is never annotated; the guard name is reserved and unused",
               "baseline_off_cmd": "cd /repo && /venv/bin/python -m pytest -ra -q -p no:cacheprovider --timeout=900 --continue-on-collection-errors", "source_commits": [], "add_only": True},
     "engines": [{"name": "pyvc", "path": "/verif/vfw", "serves_properties": [c["property_id"] for c in checks],
-                 "kind_free_text": "verification-condition generator: symbolic execution of the real Python AST (re-read from /repo on every run) over generic-row/voxel models and sidecar contracts; obligations discharged by polynomial normal form, linearised LRA, z3 5.1 and cvc5; counter-models replayed on the real code; bounded run-time contracts as labelled stand-ins"}],
+                 "kind_free_text": "verification-condition generator: symbolic execution of the real Python AST (re-read from /repo on every run) over generic-row/voxel models and sidecar contracts; obligations discharged by polynomial normal form, linearised LRA, z3 5.1 and cvc5 (two lemmas by Lean 4 / Mathlib); quantified inductive invariants with ghost state for loops; mechanically extracted statement blocks for long functions; counter-models replayed on the real code; a committed ledger of the obligations discharged on the accepted tree; bounded run-time contracts as labelled stand-ins"}],
     "checks": checks,
     "not_applicable": na,
-    "notes": "exit 0 held / 1 violation (VIOLATION line) / 3 checker fault (CHECKER-FAULT line, never a verdict). Known findings: /verif/known_findings.json.",
+    "notes": "exit 0 held / 1 violation (VIOLATION line; ends with no-failing-input-found when no input replays) / 2 undecided (UNDECIDED line: a function left the verifier's subset, or an obligation was neither discharged nor refuted; never on the accepted tree) / 3 checker fault (CHECKER-FAULT line, never a verdict). Known findings: /verif/known_findings.json. Obligations of the accepted tree: /verif/ledger.json. Seeded changes: /verif/seeded.",
 }
 json.dump(man, open("/verif/MANIFEST.json", "w"), indent=1)
 import jsonschema
